@@ -103,7 +103,7 @@ def outcome_of(ex, tr, rt):
     return ['status', ex.status]
 
 
-def evaluate(cfg, requests=('hit', 'hit2', 'hit-slashes', '404', '405'), want=('C01', 'C02', 'C03', 'C04'), stats=None,
+def evaluate(cfg, requests=('hit', 'hit2', 'hit-slashes', 'hit-absent', 'hit-absent', 'hit-long', '404', '405'), want=('C01', 'C02', 'C03', 'C04'), stats=None,
              shape_only=False, traces=None):
     """-> (findings, info).  info: {'model': summary, 'constructed': bool, 'exchanges': n, ...}"""
     findings = []
@@ -155,10 +155,21 @@ def evaluate(cfg, requests=('hit', 'hit2', 'hit-slashes', '404', '405'), want=('
         tok = 't%d' % tok_n[0]
         all_b = spies.prefix_binding_names(cfg) + list(cfg['route']['bindings'])
         n_decoys = len(cfg['route'].get('decoys') or []) + sum(1 for _ in (cfg['route'].get('siblings') or []))
-        if kind in ('hit', 'hit2', 'hit-slashes'):
+        if kind in ('hit', 'hit2', 'hit-slashes', 'hit-absent', 'hit-long'):
             if kind == 'hit-slashes' and not cfg['route']['bindings']:
                 return
+            last_op = cfg['route'].get('last_op') if cfg['route']['bindings'] else None
+            if (kind == 'hit-absent' and last_op not in ('?', '*')) or (kind == 'hit-long' and last_op not in ('*', '+')):
+                return
             vals = {b: ('v%d_%s' % (tok_n[0], b)) for b in all_b}
+            if last_op:
+                # the last binding of the route takes zero-or-one / several segments
+                last = cfg['route']['bindings'][-1]
+                if kind == 'hit-absent':
+                    vals[last] = None if last_op == '?' else []
+                elif last_op in ('*', '+'):
+                    n_seg = 70 if kind == 'hit-long' else 2
+                    vals[last] = ['v%d_%s_%d' % (tok_n[0], last, i) for i in range(n_seg)]
             path, method, view = spies.request_path(cfg, vals, '//' if kind == 'hit-slashes' else '/'), 'GET', route_view
             urlv = {b: ['value', v] for b, v in vals.items()}
             route_sym = ['route', n_decoys]
@@ -175,6 +186,10 @@ def evaluate(cfg, requests=('hit', 'hit2', 'hit-slashes', '404', '405'), want=('
         tr = spies.new_trace(env)
         ex = probe.call_wsgi(app, env, token=tok, trace=tr)
         info['exchanges'] += 1
+        # application code may do what it likes with the values it was handed once it has them: every list a function
+        # received is scribbled on after the request - the next request must get values of its own
+        for lst in tr.get('lists') or []:
+            lst.append('<left behind by request %s>' % tok)
         exp_trace, exp_out = di.reference_run(view, cfg.get('beh') or {}, urlv)
         for e in exp_trace:
             if e[0] == 'enter':
